@@ -19,10 +19,10 @@ import GridVerif.Model.Bisect
 namespace GridVerif.AngularPy
 open GridVerif.Bisect
 
-/-- The Python exceptions the modelled code can raise (`unmodelled`: an operation whose
-Python meaning this file does not define). -/
+/-- The Python exceptions the modelled code can raise (`osError`: `np.load` of a file that does
+not exist; `unmodelled`: an operation whose Python meaning this file does not define). -/
 inductive PyErr
-  | valueError | typeError | indexError | keyError | unmodelled
+  | valueError | typeError | indexError | keyError | osError | unmodelled
   deriving DecidableEq, Repr
 
 abbrev Py := Except PyErr
@@ -32,6 +32,7 @@ def PyErr.tag : PyErr → String
   | .typeError => "type-error"
   | .indexError => "index-error"
   | .keyError => "key-error"
+  | .osError => "os-error"
   | .unmodelled => "unmodelled"
 
 /-- A scalar argument as the decision logic sees it: `None`, an instance of
